@@ -30,7 +30,7 @@ PLAN = {
     "C07": dict(engine="vsim", level="exploration", extra=["vproc"]),
     "C08": dict(engine="vsim", level="exploration", extra=["vroute"]),
     "C09": dict(engine="vsim", level="exploration", extra=["vproc", "vfront"]),
-    "C10": dict(engine="vsim", level="exploration", extra=["vfront"]),
+    "C10": dict(engine="vsim", level="exploration", extra=["vfront", "vproc"]),
     "C11": dict(engine="vsim", level="exploration", extra=["vconc", "vproc"]),
     "C12": dict(engine="vconc", level="exploration", race=True, extra=["vproc", "vfront"]),
     "C13": dict(engine="vproc", level="exploration", server=True),
